@@ -82,6 +82,21 @@ func genPolicy(rng *core.Rand, large bool, authPct int) policy {
 			pl.names = append(pl.names, nm)
 		}
 	}
+	if large && rng.Chance(3, 4) {
+		// bulk of a big list: exact names, so that the first match is often deep in the list
+		pl.hasSNI = true
+		for k := 1 + rng.Intn(2); k > 0; k-- {
+			if rng.Chance(2, 3) {
+				pl.names = append(pl.names, filler(rng))
+			} else {
+				pl.names = append(pl.names, rng.Pick(baseNames))
+			}
+		}
+		if rng.Chance(1, 8) {
+			pl.opq = genOpaque(rng)
+		}
+		return pl
+	}
 	switch x := rng.Intn(100); {
 	case x < 10: // catch-all
 	case x < 55:
@@ -284,14 +299,13 @@ func hostVariant(rng *core.Rand, x string, other string) string {
 }
 
 func (p *prop) genEnf(rng *core.Rand) string {
-	strict := rng.Pick([]string{"n", "n", "n", "n", "n", "t", "t", "t", "f", "f"})
+	strict := rng.Pick([]string{"n", "n", "n", "n", "n", "t", "t", "t", "t", "f"})
 	np := rng.Intn(5)
 	if rng.Chance(1, 25) {
 		np = 29 + rng.Intn(6)
 	}
 	pols := make([]policy, np)
-	authPct := rng.Pick([]string{"0", "30", "60"})
-	ap := map[string]int{"0": 0, "30": 30, "60": 60}[authPct]
+	ap := []int{0, 40, 80}[rng.Intn(3)]
 	for i := range pols {
 		pols[i] = genPolicy(rng, false, ap)
 	}
@@ -381,6 +395,36 @@ func mutate(rng *core.Rand, s string) string {
 	}
 }
 
+// normalize: a mutated line that is still a well-formed `pol` case gets the liveness flag and the
+// verdict bits re-observed (they are observations, not inputs one may choose freely).
+func (p *prop) normalize(line string) string {
+	var f []string
+	for _, x := range strings.Split(line, " ") {
+		if x != "" {
+			f = append(f, x)
+		}
+	}
+	if len(f) != 4 || f[0] != "pol" || (f[1] != "0" && f[1] != "1") {
+		return line
+	}
+	if _, ok := parsePolicies(f[2]); !ok {
+		return line
+	}
+	hs, ok := parseHellos(f[3])
+	if !ok {
+		return line
+	}
+	var out []string
+	for _, h := range hs {
+		out = append(out, p.fmtHello(h.sni, h.r, h.l))
+	}
+	live := "0"
+	if p.live {
+		live = "1"
+	}
+	return fmt.Sprintf("pol %s %s %s", live, f[2], strings.Join(out, ";"))
+}
+
 func (p *prop) Generate(rng *core.Rand, tier string, emit func(string)) {
 	if err := p.setup(); err != nil {
 		emit("pol 0 . 2d/0/6/0000000000000000") // Run reports the setup failure
@@ -412,10 +456,10 @@ func (p *prop) Generate(rng *core.Rand, tier string, emit func(string)) {
 			} else {
 				base = p.genPol(rb, "quick")
 				if len(base) > 600 {
-					base = "pol 0 -/612e74657374/a;d/~/~ 612e74657374/0/6/1000010010010010"
+					base = "pol 0 -/612e74657374/a;d/~/~ 612e74657374/0/6/0000000000000000"
 				}
 			}
-			emit(mutate(rb, base))
+			emit(p.normalize(mutate(rb, base)))
 		}
 	}
 }
